@@ -292,7 +292,7 @@ def check_to_json(E, real):
         pc.set_current_user(user)
         try:
             for dname, data, include in JSON_DATA:
-                for with_schema in (False, True):
+                for with_schema in ((False, True) if dname == JSON_DATA[0][0] else (False,)):
                     try:
                         js = E.db.to_json([real[t] for t in data], include=[E.attr[a] for a in include],
                                           with_schema=with_schema)
@@ -583,9 +583,9 @@ def run(ctx):
     pair_dom = 'mid' if quick else 'large'
     n = len(D[pair_dom])
     for lo, hi in chunks(n, 2 if quick else 4): items.append(('pair', quick, pair_dom, lo, hi, False))
-    for lo, hi in chunks(len(D['small']), 2): items.append(('pair', quick, 'small', lo, hi, True))
-    for lo, hi in chunks(len(D['small']), 4): items.append(('mixed', quick, 'small', lo, hi))
     tdom = 'tiny' if quick else 'small'
+    for lo, hi in chunks(len(D[tdom]), 2): items.append(('pair', quick, tdom, lo, hi, True))
+    for lo, hi in chunks(len(D[tdom]), 4): items.append(('mixed', quick, tdom, lo, hi))
     for lo, hi in chunks(len(D[tdom]), 1): items.append(('triple', quick, tdom, lo, hi))
     items = ctx.shuffled(items)
     for dumped in ctx.pmap(work, items):
@@ -594,8 +594,8 @@ def run(ctx):
     c = ctx.counters
     ctx.cov['domains'] = dict((k, len(v)) for k, v in D.items())
     ctx.cov['bounds'] = ('single rules: full feature product (%d) x 4 permissions + 3 multi-permission forms (quick: on the mid product); pairs over the %s product (%d rules), '
-                         'triples over the %s product (%d rules), all orders; to_json on singles, mixed view/edit pairs and pairs of the small product'
-                         % (len(D['full']), pair_dom, n, tdom, len(D[tdom])))
+                         'triples over the %s product (%d rules), all orders; to_json (and L3, L5) on singles and on same-permission and mixed view/edit pairs of the %s product'
+                         % (len(D['full']), pair_dom, n, tdom, len(D[tdom]), tdom))
     ctx.guard('rule sets evaluated', c.get('rule_sets', 0), 5000)
     ctx.guard('decisions compared with the reference', c.get('decisions', 0), 1000000)
     ctx.guard('granted decisions', c.get('granted', 0), 10000)
